@@ -145,11 +145,11 @@ func (c *Context) Child(id string) *PID {
 
 // Children returns all child PIDs for the current process.
 func (c *Context) Children() []*PID {
-	pids := make([]*PID, c.children.Len())
-	i := 0
+	// sized by a first look, filled under the map's lock: a child that stops (or
+	// is spawned) in between must not leave nil entries or overrun the slice.
+	pids := make([]*PID, 0, c.children.Len())
 	c.children.ForEach(func(_ string, child *PID) {
-		pids[i] = child
-		i++
+		pids = append(pids, child)
 	})
 	return pids
 }
